@@ -129,7 +129,7 @@ def run():
     audit = WriteAudit()
     with audit:
         # ---- (a) generated documents
-        n_docs = 2500 if thorough else 450
+        n_docs = 9000 if thorough else 1500
         for i in range(n_docs):
             enc = F.ENCODINGS[i % len(F.ENCODINGS)]
             v, pad = [1, 2][(i // 3) % 2], [1, 2, 4][i % 3]
@@ -160,7 +160,7 @@ def run():
             wcases.append((b, wo))
             dcases.append(((pad, d), wo))
         # ---- (b) real pixel data: RLE row tables
-        for i in range(600 if thorough else 120):
+        for i in range(2500 if thorough else 500):
             enc = "macroman"
             v, pad = [1, 2][i % 2], [1, 2, 4][i % 3]
             d = g_pixel_doc(rng, enc, v)
